@@ -32,6 +32,17 @@ where
     }
 }
 
+/// The cache symlink lives deep inside the cache directory, so a relative
+/// target has to be anchored at the current directory to keep pointing at
+/// the file the caller named.
+fn absolute_target(target: &Path) -> std::io::Result<PathBuf> {
+    if target.is_absolute() {
+        Ok(target.to_path_buf())
+    } else {
+        Ok(std::env::current_dir()?.join(target))
+    }
+}
+
 fn create_symlink(sri: Integrity, cache: &PathBuf, target: &PathBuf) -> Result<Integrity> {
     let cpath = path::content_path(cache.as_ref(), &sri);
     DirBuilder::new()
@@ -80,7 +91,8 @@ impl ToLinker {
         let file = File::open(target)
             .with_context(|| format!("Failed to open reader to {}", target.display()))?;
         Ok(Self {
-            target: target.to_path_buf(),
+            target: absolute_target(target)
+                .with_context(|| format!("Failed to resolve {}", target.display()))?,
             cache: cache.to_path_buf(),
             fd: file,
             builder: IntegrityOpts::new().algorithm(algo),
@@ -155,7 +167,8 @@ impl AsyncToLinker {
             .await
             .with_context(|| format!("Failed to open reader to {}", target.display()))?;
         Ok(Self {
-            target: target.to_path_buf(),
+            target: absolute_target(target)
+                .with_context(|| format!("Failed to resolve {}", target.display()))?,
             cache: cache.to_path_buf(),
             fd: file,
             builder: IntegrityOpts::new().algorithm(algo),
